@@ -24,7 +24,7 @@ RULEPOOL = {'main': ['start', 'w', 'x', 'y'], 'ma': ['x', 'y', 'z'], 'mb': ['u',
 
 
 def tok(name):
-    return {'k': 'tok', 'name': name, 'keep': True}
+    return {'k': 'tok', 'name': name, 'keep': not name.startswith('_')}
 
 
 def tmpl(name, args):
@@ -112,6 +112,11 @@ def rand_system(rng):
         if style == 'multi':
             chosen = rng.sample(cand, rng.choice([1, 2, 2, 3]))
             return {'from': frm, 'names': [{'name': c, 'as': c} for c in chosen], 'style': 'multi'}
+        if style == 'single-alias' and terms and rng.random() < 0.4:
+            # a terminal renamed ACROSS the underscore boundary: written out by hand, every use of it (inside the imported rules
+            # too) is a filtered _NAME (hunted defect 35: the imported rules kept filtering by the module's own name)
+            c = rng.choice([t for t, _ in terms])
+            return {'from': frm, 'names': [{'name': c, 'as': '_' + c + 'H'}], 'style': style}
         c = rng.choice(names)
         return {'from': frm, 'names': [{'name': c, 'as': (c + 'r') if style == 'single-alias' else c}], 'style': style}
 
@@ -135,6 +140,14 @@ def rand_system(rng):
             ra[0]['alts'][0]['body'] = E.seq([ra[0]['alts'][0]['body'], tmpl('lst', [tok('P'), tok('Q')])])
     mods['ma'] = {'rules': ra, 'imports': ima, 'changes': []}
     imain = [mk_import('ma', na, TERMS['ma'])]
+    if rng.random() < 0.35:
+        # a second statement for the same module: one of its terminals under a filtered (underscore) alias, while rules that use
+        # the terminal are imported by the first statement
+        already = {n['name'] for n in imain[0]['names']}
+        cands = [t for t, _ in TERMS['ma'] if t not in already]
+        if cands:
+            c = rng.choice(cands)
+            imain.append({'from': 'ma', 'names': [{'name': c, 'as': '_' + c + 'H'}], 'style': 'single-alias'})
     timport = None
     if ma_t and rng.random() < 0.6:        # main imports the template itself, by name or renamed
         if imain[0]['style'] == 'multi':
@@ -258,7 +271,10 @@ def sys_json(system, ka, ph):
     for name, M in system['mods'].items():
         mods[name] = {'rules': [{'name': r['name'], 'expand1': r['expand1'], 'keepall': r['keepall'], 'inline': False, 'prio': 0, 'params': r['params'],
                                  'alts': [{'alias': a['alias'], 'body': norm(a['body'])} for a in r['alts']]} for r in M['rules']],
-                      'imports': [{'from': st['from'], 'names': [{'name': n['name'], 'as': n['as']} for n in st['names']]} for st in M['imports']],
+                      # statements naming the same module are one import of that module (lark merges their alias tables)
+                      'imports': [{'from': frm, 'names': [{'name': n['name'], 'as': n['as'], 'under': n['as'].startswith('_')}
+                                                          for st in M['imports'] if st['from'] == frm for n in st['names']]}
+                                  for frm in sorted({st['from'] for st in M['imports']}, key=[st['from'] for st in M['imports']].index)],
                       'changes': [{'kind': c['kind'], 'name': c['name'], 'alts': [{'alias': a['alias'], 'body': norm(a['body'])} for a in c['alts']]} for c in M['changes']]}
     for name in ('main', 'ma', 'mb'):
         mods.setdefault(name, {'rules': [], 'imports': [], 'changes': []})
